@@ -331,7 +331,10 @@ class TriaMesh:
         vdeg : array
             Array of vertex degrees.
         """
-        vdeg = np.bincount(self.t.reshape(-1))
+        # number of distinct neighbours = stored entries per column of the
+        # (symmetric) adjacency matrix; counting triangles instead would be
+        # wrong on boundary vertices
+        vdeg = np.diff(self.adj_sym.indptr)
         return vdeg
 
     def vertex_areas(self):
